@@ -16,6 +16,7 @@ RULE = ("case = one random history (<= 14 events quick / <= 32 thorough) over a 
         "so far: type(result) is model[t], MissingDiscriminatorError without a tag key, SuitableVariantNotFoundError for "
         "an unknown (or not yet defined) tag. distinct_nontrivial = distinct (wiring, hierarchy shape at call time, tag "
         "status) triples.")
+RULE += " Additions: from_dict and from_msgpack of one hierarchy (root and holder members) mixed in one history; variants without fields of their own; discriminator inherited from a shared Config base."
 ASSUMPTIONS = ["tags are unique per hierarchy (the property speaks of 'the unique eligible class')",
                "field-less mode is exercised on flat hierarchies where exactly one subclass accepts the input"]
 BUDGET_S = {"quick": 150, "thorough": 1200}
